@@ -367,3 +367,193 @@ def nonblocking_mode_held_across_await(cx):
          'while the shell is suspended (another process writing to the same pipe must be able to block)')
 def r6(cx):
     nonblocking_mode_held_across_await(cx)
+
+
+# ---------------------------------------------------------------------------------------
+# C14.R7 = C18.R1b: the readers of a shared descriptor take one byte per read call. For C14 the clause is: a byte obtained from a
+# pipe is consumed exactly once and no read result is taken for "the rest of the item" - only a zero-length read ends an item early.
+# A read sized from the lead byte of a multi-byte character returns short when the character straddles two fillings of the pipe.
+from rules.C18 import r1b as _c18_one_byte_readers
+from engine import Rule
+RS.rules.append(Rule('C14.R7', 'K-EFFECT', 'readers of a pipe shared with other commands (the read built-in, script input) obtain one byte per '
+                     'read call, so a short read can never be taken for a complete multi-byte item (C18.R1b)', _c18_one_byte_readers))
+
+
+# ---------------------------------------------------------------------------------------
+# C14.R8 / C14.R9 - where the descriptors the shell itself fills come from
+WRITE_CALLS = ['*::WriteAll::write_all', '*::Write::write']
+PIPE_CALLS = ['*::Pipe::pipe']
+TMPFILE_CALLS = ['*::Open::open_tmpfile']
+# a second process that may hold (and read) the other end exists only after one of these
+FORK_CALLS = [Q.re.compile(r'^yash_env::subshell::.*::start(_and_wait)?$'), Q.re.compile(r'::run_in_child_process$'),
+              Q.re.compile(r'::new_child_process$')]
+_STD_FD = Q.re.compile(r'^yash_env::io::Fd::(STDIN|STDOUT|STDERR)$')
+_WRITE_IMPL = Q.re.compile(r'(\bWrite|\bWriteAll)( for .*)?>::(write|write_all)$')
+
+
+def _param_index(F, body, du, operand):
+    """Index of the parameter of body.root that `operand` is (directly, or as a capture of the async fn's coroutine), else None."""
+    o = du.origin(operand)
+    if o['k'] == 'arg' and not body.d.get('coroutine') and body.fn == body.root:
+        return o['l'] - 1
+    if o['k'] == 'place' and o['pl']['l'] == 1 and body.d.get('coroutine') and body.fn == body.root + '::{closure#0}':
+        proj = [e for e in (o['pl'].get('p') or []) if isinstance(e, dict) and 'f' in e]
+        if len(proj) != 1 or not str(proj[0]['f']).isdigit() or body.root not in F.bodies:
+            return None
+        outer = F.bodies[body.root]
+        odu = Q.DefUse(outer)
+        for _, _, s in outer.stmts():
+            rv = s.get('rv') or {}
+            if s['k'] == 'assign' and rv.get('k') == 'agg' and rv.get('ak') == 'coroutine' and rv.get('def') == body.fn:
+                k = int(proj[0]['f'])
+                if k < len(rv['ops']):
+                    oo = odu.origin(rv['ops'][k])
+                    if oo['k'] == 'arg':
+                        return oo['l'] - 1
+    return None
+
+
+def _ok_returns(body):
+    return [(b, s) for b, j, s in Q.find_aggregates(body, 'core::result::Result', 'Ok') if s['lhs']['l'] == 0 and not s['lhs'].get('p')]
+
+
+def fd_origins(F, body, du, operand, use_block, depth=4, seen=None):
+    """Where a descriptor value comes from, across helper boundaries (parameters -> all callers, results of workspace functions ->
+    their Ok returns). Returns [(class, text, info)], class in std | tmpfile | pipe | pipe-after-fork | delegate | unknown."""
+    seen = seen if seen is not None else set()
+    o = du.origin(operand)
+    if o['k'] == 'const':
+        cdef = o['o'].get('cdef') or ''
+        if _STD_FD.match(cdef):
+            return [('std', cdef.split('::')[-1], None)]
+        return [('unknown', 'constant %s' % (cdef or o['o'].get('c')), None)]
+    idx = _param_index(F, body, du, operand)
+    if idx is not None:
+        if _WRITE_IMPL.search(body.root):
+            return [('delegate', 'parameter of %s' % body.root.split('::')[-1], None)]
+        key = ('param', body.root, idx)
+        if key in seen or depth == 0:
+            return []
+        seen.add(key)
+        root = body.root
+        callers = F.callers_of(lambda names, tt: root in names)
+        if not callers:
+            return [('unknown', 'parameter %d of %s, which has no visible caller' % (idx, root), None)]
+        out = []
+        for cb, cblk, ct in callers:
+            if idx < len(ct['a']):
+                out += fd_origins(F, cb, Q.DefUse(cb), ct['a'][idx], cblk, depth - 1, seen)
+        return out
+    src = Q.value_source(body, du, operand)
+    if src is None:
+        return [('unknown', 'a value the analysis cannot trace (%s in %s)' % (o['k'], body.root), None)]
+    if Q.callee_is(src, TMPFILE_CALLS):
+        return [('tmpfile', 'open_tmpfile at %s' % body.loc(src), {'body': body, 't': src})]
+    if Q.callee_is(src, PIPE_CALLS):
+        pblk = [b for b, t in body.calls() if t is src]
+        forks = {b for b, t in Q.find_calls(body, FORK_CALLS)}
+        guarded = (use_block is not None and pblk and src.get('to') is not None and forks and
+                   Q.must_pass(body, [src['to']], forks, goal_blocks={use_block}) is None and use_block in body.reachable(src['to']))
+        return [('pipe-after-fork' if guarded else 'pipe', 'pipe() at %s' % body.loc(src), {'body': body, 't': src})]
+    out = []
+    for n in Q.callee_names(src):
+        if n in F.bodies and n.startswith('yash_'):
+            key = ('ret', n)
+            if key in seen or depth == 0:
+                return []
+            seen.add(key)
+            mb = F.main_body(n)
+            mdu = Q.DefUse(mb)
+            for b, s in _ok_returns(mb):
+                for op in s['rv']['ops']:
+                    if 'cp' in op or 'mv' in op:
+                        out += fd_origins(F, mb, mdu, op, None, depth - 1, seen)
+            if out:
+                return out
+    return [('unknown', 'the result of %s' % pp.callee(src), None)]
+
+
+@RS.rule('C14.R8', 'K-TAINT', 'every descriptor the shell itself writes to is a standard descriptor or a temporary file; never the write end of a '
+         'pipe it has just created while no other process exists that could read it')
+def r8(cx):
+    F = cx.F
+    sites = F.callers_of(lambda names, t: Q.callee_is(t, WRITE_CALLS))
+    cx.floor(len(sites), 8, 'write / write_all call sites')
+    cx.require(F.callers_of(lambda names, t: Q.callee_is(t, PIPE_CALLS)), 'no caller of Pipe::pipe: the anchor of this rule is gone')
+    examined = 0
+    for b, blk, t in sites:
+        du = Q.DefUse(b)
+        cx.fn(b.fn)
+        cx.require(len(t['a']) >= 3, 'write call with unexpected arity in %s' % b.fn)
+        orgs = fd_origins(F, b, du, t['a'][1], blk)
+        what = pp.callee(t).split('::')[-1]
+        cx.site('%s: %s(fd) at %s, fd <- %s' % (b.root, what, b.loc(t), sorted({'%s (%s)' % (c, x) for c, x, _ in orgs}) or 'no origin'))
+        if not any(c == 'delegate' for c, _, _ in orgs):
+            examined += 1
+        if not orgs:
+            cx.violation(b.root, 'write-target-untraced:%s' % what, 'the descriptor written here could not be traced to its origin', loc=b.loc(t))
+        for c, x, info in orgs:
+            if c == 'pipe':
+                cx.violation(b.root, 'writes-into-own-pipe:%s' % what, 'the shell writes data into the write end of a pipe it created itself (%s) '
+                             'while it is the only process holding the read end and is not reading: once the data exceeds what the pipe can '
+                             'buffer (1024 bytes in the simulated system, PIPE_BUF >= 512 is all POSIX promises) the write waits for ever for '
+                             'a reader and the data never arrives - e.g. a here-document body above the pipe capacity hangs the shell in the '
+                             'redirection' % x, loc=b.loc(t))
+            elif c == 'unknown':
+                cx.violation(b.root, 'write-target-unclassified:%s' % what, 'the shell writes to a descriptor of unknown provenance (%s): only '
+                             'standard descriptors, temporary files and pipes that a forked process reads may be written without a bound' % x,
+                             loc=b.loc(t))
+    cx.floor(examined, 6, 'write sites with a classified target (not counting the delegating trait impls)')
+
+
+@RS.rule('C14.R9', 'K-TAINT', 'here-document: the descriptor handed to the command is the temporary file (seekable, unbounded) that was filled, '
+         'never one end of a pipe')
+def r9(cx):
+    F = cx.F
+    fn = 'yash_semantics::redir::here_doc::open_fd'
+    body = F.main_body(fn)
+    cx.fn(body.fn)
+    du = Q.DefUse(body)
+    oks = _ok_returns(body)
+    cx.require(oks, 'open_fd has no Ok(fd) return')
+    for b, s in oks:
+        ops = [op for op in s['rv']['ops'] if 'cp' in op or 'mv' in op]
+        cx.require(len(ops) == 1, 'Ok return of open_fd does not carry one value')
+        orgs = fd_origins(F, body, du, ops[0], b)
+        cx.site('%s: Ok(fd) at %s, fd <- %s' % (fn, body.loc(s), sorted({'%s (%s)' % (c, x) for c, x, _ in orgs}) or 'no origin'))
+        if not orgs:
+            cx.violation(fn, 'here-doc-fd:untraced', 'the descriptor returned by open_fd could not be traced to its origin', loc=body.loc(s))
+        for c, x, info in orgs:
+            if c != 'tmpfile':
+                cx.violation(fn, 'here-doc-fd:%s' % c, 'open_fd hands the command a descriptor that is not the temporary file (%s): the whole '
+                             'body is stored before any reader exists, so the store must be unbounded and rewindable; a pipe holds only its '
+                             'capacity and the shell blocks for ever writing a larger body' % x, loc=body.loc(s))
+                continue
+            # the temporary file returned is one that was handed to a filling call first (same body only)
+            if info['body'] is body:
+                fills = []
+                for cb, ct in body.calls():
+                    if ct is info['t'] or Q.callee_is(ct, CLOSE):
+                        continue
+                    if any(('cp' in a or 'mv' in a) and Q.value_source(body, du, a) is info['t'] for a in ct['a']):
+                        fills.append((cb, ct))
+                if not any(body.dominates(cb, b) for cb, ct in fills):
+                    cx.violation(fn, 'here-doc-fd:not-filled', 'open_fd can return the temporary file without having passed it to the function '
+                                 'that writes the content', loc=body.loc(s))
+    # the filling of a here-document uses the complete-transfer primitive on that descriptor (R5 decides its order with the rewind)
+    mod = [bd for f_, bd in F.bodies.items() if f_.startswith('yash_semantics::redir::here_doc::')]
+    wr = [(bd, blk, t) for bd in mod for blk, t in Q.find_calls(bd, WRITE_CALLS)]
+    cx.floor(len(wr), 1, 'write calls in redir::here_doc')
+    for bd, blk, t in wr:
+        orgs = fd_origins(F, bd, Q.DefUse(bd), t['a'][1], blk)
+        cx.site('%s: %s at %s, fd <- %s' % (bd.root, pp.callee(t).split('::')[-1], bd.loc(t), sorted({c for c, _, _ in orgs})))
+        for c, x, info in orgs:
+            if c != 'tmpfile':
+                cx.violation(bd.root, 'here-doc-write-target:%s' % c, 'here-document content is written to a descriptor that is not the temporary '
+                             'file (%s)' % x, loc=bd.loc(t))
+
+
+RS.explanation += (' Added later: the readers of a shared pipe take one byte per read call (R7 = C18.R1b: no short read is taken for a complete '
+                   'multi-byte item); every descriptor the shell writes to is traced across helpers to a standard descriptor or a temporary '
+                   'file, never to the write end of a pipe created by the same process with no forked reader (R8); the here-document '
+                   'descriptor handed to the command is the filled temporary file (R9).')
